@@ -200,7 +200,7 @@ Ltac proj_simp :=
        put_t put_b
        t_lb t_st t_pok t_presumed t_by t_sig t_waiter t_probing t_infl
        tg_st tg_pok tg_presumed tg_by tg_sig tg_waiter tg_probing tg_infl
-       b_ts b_rot b_idx b_waited b_disp b_deadline bl_rot bl_idx bl_waited bl_disp
+       b_ts b_rot b_idx b_waited b_disp b_deadline b_cmd b_restored bl_rot bl_idx bl_waited bl_disp bl_restored
        s_act s_roll p_lb p_choice] in *.
 
 Ltac heap_cases :=
@@ -215,6 +215,76 @@ Ltac heap_cases :=
 
 Lemma fresh_none : forall A (l : list (nat * A)) k, fresh l k = true -> nget l k = None.
 Proof. intros A l k H. unfold fresh in H. destruct (nget l k); [discriminate|reflexivity]. Qed.
+
+(** * The restore rule: marking and the admission test *)
+
+Lemma mark_restored_get : forall lbs bl l,
+  nget (mark_restored lbs bl) l =
+  match nget bl l with Some b => Some (if nmem l lbs then bl_restored b true else b) | None => None end.
+Proof.
+  intros lbs bl l. induction bl as [|[k v] r IH]; cbn.
+  - reflexivity.
+  - destruct (Nat.eqb_spec l k) as [->|Hne]; auto.
+Qed.
+
+Lemma mark_restored_some : forall lbs bl l b', nget (mark_restored lbs bl) l = Some b' ->
+  exists b, nget bl l = Some b /\ b' = (if nmem l lbs then bl_restored b true else b).
+Proof.
+  intros lbs bl l b' H. rewrite mark_restored_get in H. destruct (nget bl l) as [b|]; [|discriminate].
+  inversion H. eauto.
+Qed.
+
+Lemma mark_restored_none : forall lbs bl l, nget (mark_restored lbs bl) l = None -> nget bl l = None.
+Proof.
+  intros lbs bl l H. rewrite mark_restored_get in H. destruct (nget bl l); [discriminate|reflexivity].
+Qed.
+
+Definition same_bal (b b' : bal) : Prop :=
+  b_ts b' = b_ts b /\ b_rot b' = b_rot b /\ b_idx b' = b_idx b /\ b_waited b' = b_waited b /\
+  b_cmd b' = b_cmd b /\ b_deadline b' = b_deadline b /\ b_disp b' = b_disp b.
+
+Lemma mark_fwd : forall lbs bl l b, nget bl l = Some b ->
+  exists b', nget (mark_restored lbs bl) l = Some b' /\ same_bal b b' /\
+    (b_restored b = true -> b_restored b' = true) /\ (In l lbs -> b_restored b' = true).
+Proof.
+  intros lbs bl l b H. rewrite mark_restored_get, H. destruct (nmem l lbs) eqn:E.
+  - eexists; split; [reflexivity|]. unfold same_bal; cbn. repeat split; auto.
+  - exists b. unfold same_bal. repeat split; auto. intros Hin. apply nmem_In in Hin. congruence.
+Qed.
+
+Lemma mark_bwd : forall lbs bl l b', nget (mark_restored lbs bl) l = Some b' ->
+  exists b, nget bl l = Some b /\ same_bal b b' /\ (b_restored b' = true -> b_restored b = true \/ In l lbs).
+Proof.
+  intros lbs bl l b' H. destruct (mark_restored_some _ _ _ _ H) as [b [Hb ->]]. exists b. split; auto.
+  destruct (nmem l lbs) eqn:E; unfold same_bal; cbn; repeat split; auto.
+  intros _. right. now apply nmem_In.
+Qed.
+
+(** read a balancer of the marked heap back (names Hb0 Hs_* Hrest are introduced literally) *)
+Ltac unmark :=
+  match goal with
+  | H : nget (mark_restored _ _) _ = Some _ |- _ =>
+    let b0 := fresh "b0" in
+    destruct (mark_bwd _ _ _ _ H) as [b0 [Hb0 [[Hs_ts [Hs_rot [Hs_idx [Hs_w [Hs_cmd [Hs_dl Hs_disp]]]]]] Hrest]]]
+  end.
+
+Lemma restorable_spec : forall s lb, restorable s lb = true ->
+  exists b, nget (bals s) lb = Some b /\ b_cmd b = false /\ b_restored b = false /\ b_disp b = false /\
+    b_waited b = None /\ (forall t, In t (b_ts b) -> is_presumed (tgts s) t = true) /\ b_rot b = b_ts b.
+Proof.
+  intros s lb H. unfold restorable in H. destruct (nget (bals s) lb) as [b|]; [|discriminate].
+  repeat (apply andb_prop in H; let H2 := fresh "H" in destruct H as [H H2]).
+  exists b. repeat split.
+  - now apply negb_true_iff in H.
+  - now apply negb_true_iff in H4.
+  - now apply negb_true_iff in H3.
+  - destruct (b_waited b); [discriminate|reflexivity].
+  - intros t Hin. rewrite forallb_forall in H1. auto.
+  - now apply nlist_eqb_eq.
+Qed.
+
+Lemma is_presumed_true : forall tg t, is_presumed tg t = true -> exists x, nget tg t = Some x /\ t_presumed x = true.
+Proof. intros tg t H. unfold is_presumed in H. destruct (nget tg t) as [x|]; [eauto|discriminate]. Qed.
 
 (** * Stability of balancers and targets under a step *)
 
@@ -236,6 +306,25 @@ Proof.
   all: try (eexists; split; [reflexivity|]; proj_simp; repeat split; auto;
             intros v Hv; repeat (match goal with H : _ && _ = true |- _ => apply andb_prop in H; destruct H end);
             destruct (b_waited b); try discriminate; fail).
+  rewrite mark_restored_get, Hb. destruct (nmem lb _); eexists; (split; [reflexivity|]); proj_simp; auto.
+Qed.
+
+(** the ghost flags: who created the balancer never changes, "restored" is never taken back *)
+Lemma bal_flags_stable : forall s e s' lb b,
+  step s e = Some s' -> nget (bals s) lb = Some b ->
+  exists b', nget (bals s') lb = Some b' /\ b_cmd b' = b_cmd b /\ (b_restored b = true -> b_restored b' = true).
+Proof.
+  intros s [tm a k] s' lb b H Hb. destruct k; step_inv H; proj_simp;
+    try (exists b; repeat split; auto; fail);
+    heap_cases; try (exists b; repeat split; auto; fail);
+    try match goal with
+    | H1 : nget (bals _) ?l = Some ?x, H2 : nget (bals _) ?l = Some ?y |- _ =>
+      rewrite H1 in H2; inversion H2; subst; clear H2
+    end;
+    try (eexists; split; [reflexivity|]; proj_simp; repeat split; auto; fail).
+  all: try (apply andb_prop in Heqb0; destruct Heqb0 as [Hf _]; apply andb_prop in Hf; destruct Hf as [Hf _];
+            apply fresh_none in Hf; congruence).
+  rewrite mark_restored_get, Hb. destruct (nmem lb _); eexists; (split; [reflexivity|]); proj_simp; auto.
 Qed.
 
 Lemma fresh_all_notin : forall A (tg : list (nat * A)) ts t x,
@@ -272,23 +361,36 @@ Qed.
 
 (** * The state invariant *)
 
+(** a balancer that may carry traffic: its deploy's wait succeeded, or it was restored *)
+Definition bal_ready (b : bal) : Prop := b_waited b = Some true \/ b_restored b = true.
+Definition lb_ready (s : state) (lb : nat) : Prop := exists b, nget (bals s) lb = Some b /\ bal_ready b.
+
 Record Inv (s : state) : Prop := mkInv {
   i_tlb : forall t x, nget (tgts s) t = Some x -> exists b, nget (bals s) (t_lb x) = Some b /\ In t (b_ts b);
   i_ts : forall lb b t, nget (bals s) lb = Some b -> In t (b_ts b) -> exists x, nget (tgts s) t = Some x /\ t_lb x = lb;
   i_rot : forall lb b t, nget (bals s) lb = Some b -> In t (b_rot b) -> In t (b_ts b);
-  i_slot : forall sv x lb, nget (svcs s) sv = Some x -> in_slots x lb = true ->
-           exists b, nget (bals s) lb = Some b /\ b_waited b = Some true;
-  i_pick : forall r lb, nget (picked s) r = Some lb -> exists b, nget (bals s) lb = Some b /\ b_waited b = Some true;
+  i_slot : forall sv x lb, nget (svcs s) sv = Some x -> in_slots x lb = true -> lb_ready s lb;
+  i_pick : forall r lb, nget (picked s) r = Some lb -> lb_ready s lb;
   i_pend : forall r p t, nget (pend s) r = Some p -> p_choice p = Some t ->
-           exists b, nget (bals s) (p_lb p) = Some b /\ b_waited b = Some true /\ In t (b_ts b);
+           exists b, nget (bals s) (p_lb p) = Some b /\ bal_ready b /\ In t (b_ts b);
   i_waited : forall lb b t x, nget (bals s) lb = Some b -> b_waited b = Some true -> In t (b_ts b) ->
              nget (tgts s) t = Some x -> t_waiter x = Some true;
   i_wsig : forall t x, nget (tgts s) t = Some x -> t_waiter x = Some true -> t_sig x = true;
-  i_sigpok : forall t x, nget (tgts s) t = Some x -> t_sig x = true \/ t_by x <> None -> t_pok x = true
+  i_sigpok : forall t x, nget (tgts s) t = Some x -> t_sig x = true \/ t_by x <> None -> t_pok x = true;
+  (* restored balancers: never a command's, never waited on, every target presumed healthy by the restore *)
+  i_rest : forall lb b, nget (bals s) lb = Some b -> b_restored b = true -> b_cmd b = false /\ b_waited b = None;
+  i_restp : forall lb b t x, nget (bals s) lb = Some b -> b_restored b = true -> In t (b_ts b) ->
+            nget (tgts s) t = Some x -> t_presumed x = true;
+  (* the balancer a deploying command waits for / proceeds with is one it created *)
+  i_cmdlb : forall c lb, nget (cmds s) c = Some (CWaiting lb) \/ nget (cmds s) c = Some (CProceed lb) ->
+            exists b, nget (bals s) lb = Some b /\ b_cmd b = true
 }.
 
 Lemma inv_init : Inv init.
-Proof. constructor; cbn; intros; discriminate. Qed.
+Proof.
+  constructor; cbn; intros; try discriminate.
+  match goal with H : _ \/ _ |- _ => destruct H; discriminate end.
+Qed.
 
 Lemma bal_waited_stable : forall s e s' lb b,
   step s e = Some s' -> nget (bals s) lb = Some b -> b_waited b = Some true ->
@@ -331,12 +433,12 @@ Qed.
 
 (** ** Preservation, field by field *)
 
-Lemma lbnew_tlb : forall s lb ts t x dl,
+Lemma lbnew_tlb : forall s lb ts t x dl cm,
   Inv s -> fresh (bals s) lb = true -> forallb (fresh (tgts s)) ts = true ->
   nget (add_targets (tgts s) lb ts) t = Some x ->
-  exists b, nget (nset (bals s) lb (mkBal ts [] 0 None false dl)) (t_lb x) = Some b /\ In t (b_ts b).
+  exists b, nget (nset (bals s) lb (mkBal ts [] 0 None false dl cm false)) (t_lb x) = Some b /\ In t (b_ts b).
 Proof.
-  intros s lb ts t x dl HI Hf Hts Hx. apply fresh_none in Hf.
+  intros s lb ts t x dl cm HI Hf Hts Hx. apply fresh_none in Hf.
   apply add_targets_inv in Hx. destruct Hx as [[Hin ->]|[Hin Hx]]; proj_simp.
   - rewrite nget_nset_same. eexists; split; [reflexivity|]. exact Hin.
   - destruct (i_tlb _ HI _ _ Hx) as [b [Hb1 Hb2]].
@@ -352,6 +454,8 @@ Proof.
   all: norm; try (eapply (i_tlb _ HI); eauto; fail).
   all: try (split_ands; discriminate).
   all: try (use_tlb HI; proj_simp; same_get; eexists; split; [reflexivity|]; proj_simp; auto; fail).
+  use_tlb HI. destruct (mark_fwd (n :: opt_list rollout) _ _ _ Hb1) as [b' [Hb' [[Hts _] _]]].
+  exists b'. rewrite Hts. auto.
 Qed.
 
 Ltac use_ts HI :=
@@ -360,12 +464,12 @@ Ltac use_ts HI :=
     let xx := fresh "xx" in let Hx1 := fresh "Hx1" in let Hx2 := fresh "Hx2" in
     destruct (i_ts _ HI _ _ _ Hb Hin) as [xx [Hx1 Hx2]]
   end.
-Lemma lbnew_ts : forall s lb0 ts dl lb b t,
+Lemma lbnew_ts : forall s lb0 ts dl cm lb b t,
   Inv s -> fresh (bals s) lb0 = true -> forallb (fresh (tgts s)) ts = true ->
-  nget (nset (bals s) lb0 (mkBal ts [] 0 None false dl)) lb = Some b -> In t (b_ts b) ->
+  nget (nset (bals s) lb0 (mkBal ts [] 0 None false dl cm false)) lb = Some b -> In t (b_ts b) ->
   exists x, nget (add_targets (tgts s) lb0 ts) t = Some x /\ t_lb x = lb.
 Proof.
-  intros s lb0 ts dl lb b t HI Hf Hts Hb Hin. rewrite nget_nset in Hb.
+  intros s lb0 ts dl cm lb b t HI Hf Hts Hb Hin. rewrite nget_nset in Hb.
   destruct (Nat.eqb_spec lb lb0) as [->|Hne].
   - inversion Hb; subst; proj_simp. rewrite add_targets_get.
     apply nmem_In in Hin. rewrite Hin. eexists; split; [reflexivity|reflexivity].
@@ -381,6 +485,7 @@ Proof.
   all: norm; try (eapply (i_ts _ HI); eauto; fail).
   all: try (split_ands; discriminate).
   all: try (use_ts HI; same_get; eexists; split; [reflexivity || eassumption|]; proj_simp; auto; fail).
+  all: try (unmark; rewrite Hs_ts in Hin; eapply (i_ts _ HI); eauto; fail).
   all: use_ts HI; same_get.
 Qed.
 
@@ -397,14 +502,24 @@ Proof.
   all: norm; try (eapply (i_rot _ HI); eauto; fail).
   all: try (split_ands; discriminate).
   all: try (destruct Hin; fail).
+  all: try (unmark; rewrite Hs_ts; rewrite Hs_rot in Hin; eapply (i_rot _ HI); eauto; fail).
   all: eapply rotation_sub; eauto.
 Qed.
 
-Definition lb_ready (s : state) (lb : nat) : Prop := exists b, nget (bals s) lb = Some b /\ b_waited b = Some true.
+Lemma bal_ready_stable : forall s e s' lb b,
+  step s e = Some s' -> nget (bals s) lb = Some b -> bal_ready b ->
+  exists b', nget (bals s') lb = Some b' /\ bal_ready b' /\ b_ts b' = b_ts b.
+Proof.
+  intros s e s' lb b H Hb Hr.
+  destruct (bal_stable _ _ _ _ _ H Hb) as [b' [H1 [H2 [_ H3]]]].
+  destruct (bal_flags_stable _ _ _ _ _ H Hb) as [b2 [G1 [_ G2]]].
+  rewrite H1 in G1. inversion G1; subst b2.
+  exists b'. repeat split; auto. destruct Hr as [Hr|Hr]; [left|right]; auto.
+Qed.
 
 Lemma ready_stable : forall s e s' lb, step s e = Some s' -> lb_ready s lb -> lb_ready s' lb.
 Proof.
-  intros s e s' lb H [b [Hb Hw]]. destruct (bal_waited_stable _ _ _ _ _ H Hb Hw) as [b' [H1 [H2 _]]].
+  intros s e s' lb H [b [Hb Hw]]. destruct (bal_ready_stable _ _ _ _ _ H Hb Hw) as [b' [H1 [H2 _]]].
   exists b'. auto.
 Qed.
 
@@ -413,6 +528,23 @@ Proof.
   intros [a r] sl lb0 lb H. unfold in_slots, set_slot in *. destruct sl; proj_simp;
   apply orb_prop in H; destruct H as [H|H]; try (apply opt_nat_eqb_eq in H; inversion H; auto; fail);
   right; rewrite H; auto using orb_true_r.
+Qed.
+
+Lemma in_slots_restored : forall n roll lb, in_slots (mkSvc (Some n) roll) lb = true -> In lb (n :: opt_list roll).
+Proof.
+  intros n roll lb H. unfold in_slots in H. cbn [s_act s_roll] in H. apply orb_prop in H. destruct H as [H|H];
+  apply opt_nat_eqb_eq in H.
+  - inversion H. left. reflexivity.
+  - subst roll. right. left. reflexivity.
+Qed.
+
+(** the balancers named by an accepted KRestored event are ready afterwards *)
+Lemma restored_ready : forall s lbs lb, forallb (restorable s) lbs = true -> In lb lbs ->
+  exists b', nget (mark_restored lbs (bals s)) lb = Some b' /\ b_restored b' = true.
+Proof.
+  intros s lbs lb Hall Hin. rewrite forallb_forall in Hall. specialize (Hall _ Hin).
+  destruct (restorable_spec _ _ Hall) as [b [Hb _]].
+  destruct (mark_fwd lbs _ _ _ Hb) as [b' [Hb' [_ [_ Hr]]]]. eauto.
 Qed.
 
 Lemma pres_slot : forall s e s', Inv s -> step s e = Some s' ->
@@ -426,7 +558,9 @@ Proof.
   all: try (split_ands; discriminate).
   - eapply (Hold old); eauto.
   - apply in_slots_set_slot in Hin. destruct Hin as [->|Hin]; [|eapply Hold; eauto].
-    exists b. proj_simp. auto.
+    exists b. proj_simp. split; auto. left; auto.
+  - split_ands. apply in_slots_restored in Hin.
+    destruct (restored_ready _ _ _ H0 Hin) as [b' [Hb' Hr]]. exists b'. proj_simp. split; auto. right; auto.
 Qed.
 
 Lemma pres_pick : forall s e s', Inv s -> step s e = Some s' ->
@@ -444,7 +578,7 @@ Proof.
 Qed.
 
 Lemma claim_pend_ok : forall s r lb b i t, Inv s -> nget (picked s) r = Some lb -> nget (bals s) lb = Some b ->
-  opt_nat_eqb (nth_error (b_rot b) i) (Some t) = true -> b_waited b = Some true /\ In t (b_ts b).
+  opt_nat_eqb (nth_error (b_rot b) i) (Some t) = true -> bal_ready b /\ In t (b_ts b).
 Proof.
   intros s r lb b i t HI Hp Hb Hn. apply opt_nat_eqb_eq in Hn. apply nth_error_In in Hn.
   destruct (i_pick _ HI _ _ Hp) as [b' [Hb' Hw]]. rewrite Hb in Hb'. inversion Hb'; subst b'.
@@ -453,12 +587,12 @@ Qed.
 
 Lemma pres_pend : forall s e s', Inv s -> step s e = Some s' ->
   forall r p t, nget (pend s') r = Some p -> p_choice p = Some t ->
-  exists b, nget (bals s') (p_lb p) = Some b /\ b_waited b = Some true /\ In t (b_ts b).
+  exists b, nget (bals s') (p_lb p) = Some b /\ bal_ready b /\ In t (b_ts b).
 Proof.
   intros s e s' HI H r p t Hr Hc.
-  assert (Hold : forall r, nget (pend s) r = Some p -> exists b, nget (bals s') (p_lb p) = Some b /\ b_waited b = Some true /\ In t (b_ts b)).
+  assert (Hold : forall r, nget (pend s) r = Some p -> exists b, nget (bals s') (p_lb p) = Some b /\ bal_ready b /\ In t (b_ts b)).
   { intros r0 H0. destruct (i_pend _ HI _ _ _ H0 Hc) as [b [Hb1 [Hb2 Hb3]]].
-    destruct (bal_waited_stable _ _ _ _ _ H Hb1 Hb2) as [b' [H1 [H2 H3]]]. exists b'. rewrite H3. auto. }
+    destruct (bal_ready_stable _ _ _ _ _ H Hb1 Hb2) as [b' [H1 [H2 H3]]]. exists b'. rewrite H3. auto. }
   destruct e as [tm a k]. destruct k; step_inv H; proj_simp; try (eapply Hold; eauto; fail).
   all: norm; try (eapply Hold; eauto; fail).
   all: try (split_ands; discriminate).
@@ -484,6 +618,7 @@ Proof.
   try (eapply (i_waited _ HI); eauto; fail).
   all: norm; try (eapply (i_waited _ HI); eauto; fail).
   all: try (split_ands; discriminate).
+  all: try (unmark; rewrite Hs_ts in Hin; rewrite Hs_w in Hw; eapply (i_waited _ HI); eauto; fail).
   - split_ands. apply eqb_prop in H0. symmetry in H0. rewrite forallb_forall in H0.
     eapply waiter_is_true; eauto.
   - use_ts HI. split_ands. erewrite add_targets_old in Hx by eauto. inj_some. eapply (i_waited _ HI); eauto.
@@ -526,6 +661,102 @@ Proof.
             destruct (t_by _); [congruence|discriminate]; fail).
 Qed.
 
+Lemma phase_waiting_eq : forall p lb, phase_is_waiting p lb = true -> p = Some (CWaiting lb).
+Proof.
+  intros [[l| | |]|] lb0 H; cbn in H; try discriminate. apply Nat.eqb_eq in H. now subst.
+Qed.
+
+Lemma phase_proceed_eq : forall p lb, phase_is_proceed p lb = true -> p = Some (CProceed lb).
+Proof.
+  intros [[l|l| |]|] lb0 H; cbn in H; try discriminate. apply Nat.eqb_eq in H. now subst.
+Qed.
+
+Lemma pres_rest : forall s e s', Inv s -> step s e = Some s' ->
+  forall lb b, nget (bals s') lb = Some b -> b_restored b = true -> b_cmd b = false /\ b_waited b = None.
+Proof.
+  intros s [tm a k] s' HI H lb b Hb Hr. destruct k; step_inv H; proj_simp;
+  try (eapply (i_rest _ HI); eauto; fail).
+  all: norm; try (eapply (i_rest _ HI); eauto; fail).
+  all: try (split_ands; discriminate).
+  all: try (match goal with Hg : nget (bals _) _ = Some _ |- _ => apply (i_rest _ HI _ _ Hg); exact Hr end; fail).
+  (* KDeployWaited on a restored balancer: impossible *)
+  all: try (exfalso; split_ands;
+    match goal with Hp : phase_is_waiting _ _ = true |- _ => apply phase_waiting_eq in Hp;
+      destruct (i_cmdlb _ HI _ _ (or_introl Hp)) as [b1 [Hb1 Hc1]] end;
+    same_get; destruct (i_rest _ HI _ _ Heqo0 Hr) as [Hc _]; congruence).
+  - (* KRestored *)
+    unmark. rewrite Hs_cmd, Hs_w. destruct (Hrest Hr) as [Hr0|Hin].
+    + eapply (i_rest _ HI); eauto.
+    + split_ands. match goal with Hf : forallb _ _ = true |- _ => rewrite forallb_forall in Hf; specialize (Hf _ Hin);
+        destruct (restorable_spec _ _ Hf) as [b1 [Hb1 [Hc1 [_ [_ [Hw1 _]]]]]] end.
+      same_get. auto.
+Qed.
+
+Lemma tgt_presumed_stable : forall s e s' t x,
+  step s e = Some s' -> nget (tgts s) t = Some x -> t_presumed x = true ->
+  exists x', nget (tgts s') t = Some x' /\ t_presumed x' = true.
+Proof.
+  intros s [tm a k] s' t x H Hx Hp. destruct k; step_inv H; proj_simp;
+    try (exists x; repeat split; auto; fail);
+    heap_cases; same_get; try (exists x; repeat split; auto; fail);
+    try (eexists; split; [reflexivity|]; proj_simp; auto; fail).
+  all: try (split_ands; rewrite add_targets_get;
+            erewrite fresh_all_notin by eauto; exists x; repeat split; auto; fail).
+  all: try (destruct ok; eexists; split; try reflexivity; proj_simp; auto; fail).
+  all: try (eexists; split; [reflexivity|]; destruct (_ && _); proj_simp; auto; fail).
+Qed.
+
+(** where a restored balancer of the next state comes from *)
+Lemma bal_restored_back : forall s e s' lb b,
+  step s e = Some s' -> nget (bals s') lb = Some b -> b_restored b = true ->
+  exists b0, nget (bals s) lb = Some b0 /\ b_ts b0 = b_ts b /\
+    (b_restored b0 = true \/ forall t, In t (b_ts b0) -> is_presumed (tgts s) t = true).
+Proof.
+  intros s [tm a k] s' lb b H Hb Hr. destruct k; step_inv H; proj_simp;
+    try (exists b; repeat split; auto; fail).
+  all: norm; try (exists b; repeat split; auto; fail).
+  all: try discriminate.
+  all: try (eexists; split; [eassumption|]; proj_simp; split; auto; fail).
+  unmark. exists b0. repeat split; auto. destruct (Hrest Hr) as [Hr0|Hin]; auto. right.
+  split_ands. match goal with Hf : forallb _ _ = true |- _ => rewrite forallb_forall in Hf; specialize (Hf _ Hin);
+    destruct (restorable_spec _ _ Hf) as [b1 [Hb1 [_ [_ [_ [_ [Hp1 _]]]]]]] end.
+  same_get. exact Hp1.
+Qed.
+
+Lemma pres_restp : forall s e s', Inv s -> step s e = Some s' ->
+  forall lb b t x, nget (bals s') lb = Some b -> b_restored b = true -> In t (b_ts b) ->
+  nget (tgts s') t = Some x -> t_presumed x = true.
+Proof.
+  intros s e s' HI H lb b t x Hb Hr Hin Hx.
+  destruct (bal_restored_back _ _ _ _ _ H Hb Hr) as [b0 [Hb0 [Hts Hor]]].
+  rewrite <- Hts in Hin. destruct (i_ts _ HI _ _ _ Hb0 Hin) as [x0 [Hx0 _]].
+  assert (Hp0 : t_presumed x0 = true).
+  { destruct Hor as [Hr0|Hall].
+    - eapply (i_restp _ HI); eauto.
+    - specialize (Hall _ Hin). unfold is_presumed in Hall. now rewrite Hx0 in Hall. }
+  destruct (tgt_presumed_stable _ _ _ _ _ H Hx0 Hp0) as [x' [Hx' Hp']]. congruence.
+Qed.
+
+Lemma pres_cmdlb : forall s e s', Inv s -> step s e = Some s' ->
+  forall c lb, nget (cmds s') c = Some (CWaiting lb) \/ nget (cmds s') c = Some (CProceed lb) ->
+  exists b, nget (bals s') lb = Some b /\ b_cmd b = true.
+Proof.
+  intros s e s' HI H c lb Hc.
+  assert (Hold : (nget (cmds s) c = Some (CWaiting lb) \/ nget (cmds s) c = Some (CProceed lb)) ->
+                 exists b, nget (bals s') lb = Some b /\ b_cmd b = true).
+  { intros H0. destruct (i_cmdlb _ HI _ _ H0) as [b [Hb Hcm]].
+    destruct (bal_flags_stable _ _ _ _ _ H Hb) as [b' [Hb' [Hc' _]]]. exists b'. split; congruence. }
+  destruct e as [tm a k]. destruct k; step_inv H; proj_simp; try (apply Hold; exact Hc; fail).
+  all: rewrite nget_nset in Hc;
+       match type of Hc with context [Nat.eqb ?c0 ?c1] => destruct (Nat.eqb_spec c0 c1) as [->|Hne]; [|apply Hold; exact Hc] end.
+  all: try (destruct Hc; discriminate).
+  all: try (split_ands; discriminate).
+  (* KDeployWaited true: the command proceeds with the balancer it was waiting for *)
+  all: try (destruct Hc as [Hc|Hc]; inversion Hc; subst; apply Hold; left; split_ands; apply phase_waiting_eq; assumption).
+  (* KLbNew by the command *)
+  all: destruct Hc as [Hc|Hc]; inversion Hc; subst; rewrite nget_nset_same; eexists; split; reflexivity.
+Qed.
+
 Theorem inv_step : forall s e s', Inv s -> step s e = Some s' -> Inv s'.
 Proof.
   intros s e s' HI H. constructor.
@@ -538,6 +769,9 @@ Proof.
   - eapply pres_waited; eauto.
   - eapply pres_wsig; eauto.
   - eapply pres_sigpok; eauto.
+  - eapply pres_rest; eauto.
+  - eapply pres_restp; eauto.
+  - eapply pres_cmdlb; eauto.
 Qed.
 
 Theorem inv_run : forall tr s, run step init tr = Some s -> Inv s.
